@@ -1199,6 +1199,12 @@ func (r *runner) step(step int, op Op, before [2]*lakeState) *vt.Failure {
 	if p != nil && len(p.branches) > 0 {
 		branch = p.branches[op.Branch%len(p.branches)]
 	}
+	pickBranch := func(i int) string {
+		if len(p.branches) == 0 {
+			return "main"
+		}
+		return p.branches[i%len(p.branches)]
+	}
 	switch op.Kind {
 	case "createpool":
 		name := r.freshName("p")
@@ -1248,7 +1254,7 @@ func (r *runner) step(step int, op Op, before [2]*lakeState) *vt.Failure {
 			r.serviceMutations++
 		}
 	case "branch":
-		src := p.branches[op.Other%len(p.branches)]
+		src := pickBranch(op.Other)
 		name := r.freshName("b")
 		if op.Dup {
 			name = branch
@@ -1407,7 +1413,7 @@ func (r *runner) step(step int, op Op, before [2]*lakeState) *vt.Failure {
 			r.serviceMutations++
 		}
 	case "merge":
-		parent := p.branches[op.Other%len(p.branches)]
+		parent := pickBranch(op.Other)
 		if parent == branch {
 			return nil
 		}
